@@ -1,4 +1,6 @@
 pub mod engine;
+pub mod fuzzdrv;
+pub mod fuzzrider;
 pub mod gen;
 pub mod model;
 pub mod props;
